@@ -89,7 +89,7 @@ theorem act_pinv {s : St} (a : Act) (h : PInv s) : PInv (act a s) := by
     · exact setDesc_pinv _ _ (h.congr rfl rfl rfl rfl)
     · exact h
   | wakeup => exact armSig_pinv (h.congr rfl rfl rfl rfl)
-  | exit => exact h.congr rfl rfl rfl rfl
+  | exit => exact armSig_pinv (h.congr rfl rfl rfl rfl)
   | xexit => exact armSig_pinv (h.congr rfl rfl rfl rfl)
 
 theorem runActs_pinv (as : List Act) {s : St} (h : PInv s) : PInv (runActs as s) := by
@@ -346,7 +346,10 @@ theorem act_smono (a : Act) (s : St) : SMono s (act a s) := by
     simp only [act, sigWakeup]
     refine SMono.trans ?_ (armSig_smono _)
     exact SMono.of_eq rfl rfl rfl rfl rfl
-  | exit => exact SMono.of_eq rfl rfl rfl rfl rfl
+  | exit =>
+    simp only [act, sigWakeup]
+    refine SMono.trans ?_ (armSig_smono _)
+    exact SMono.of_eq rfl rfl rfl rfl rfl
   | xexit =>
     simp only [act, sigWakeup]
     refine SMono.trans ?_ (armSig_smono _)
@@ -487,7 +490,10 @@ theorem act_mle (a : Act) (s : St) : MLe s (act a s) := by
     simp only [act, sigWakeup]
     refine MLe.trans ?_ (armSig_mle _)
     exact MLe.of_eq rfl rfl rfl
-  | exit => exact MLe.of_eq rfl rfl rfl
+  | exit =>
+    simp only [act, sigWakeup]
+    refine MLe.trans ?_ (armSig_mle _)
+    exact MLe.of_eq rfl rfl rfl
   | xexit =>
     simp only [act, sigWakeup]
     refine MLe.trans ?_ (armSig_mle _)
@@ -607,7 +613,10 @@ theorem act_srel (a : Act) (s : St) : SRel s (act a s) := by
     simp only [act, sigWakeup]
     refine SRel.trans ?_ (armSig_srel _)
     exact SRel.of_eq rfl rfl rfl rfl rfl rfl rfl
-  | exit => exact SRel.of_eq rfl rfl rfl rfl rfl rfl rfl
+  | exit =>
+    simp only [act, sigWakeup]
+    refine SRel.trans ?_ (armSig_srel _)
+    exact SRel.of_eq rfl rfl rfl rfl rfl rfl rfl
   | xexit =>
     simp only [act, sigWakeup]
     refine SRel.trans ?_ (armSig_srel _)
